@@ -83,7 +83,9 @@ class Ctx:
         tier samples four times as much (mutation-directed testing), never more than the thorough volume"""
         if not self.quick:
             return thorough
-        return min(thorough, quick * 4) if self.boost and thorough > quick else quick
+        if self.boost and isinstance(quick, (int, float)) and isinstance(thorough, (int, float)) and thorough > quick:
+            return type(quick)(min(thorough, quick * 4))
+        return quick
 
     def count(self, part, evaluations=0, nontrivial_keys=(), **dist):
         self.evaluations += evaluations
